@@ -1,8 +1,12 @@
 #!/bin/bash
-# warm the build cache (offline)
+# warm the build caches (offline): the explorer, the overlay-instrumented scheduler build and the race build of C14
 set -e
 cd "$(dirname "$0")"
 export GOFLAGS=-mod=mod GOPROXY=off GOSUMDB=off GOTOOLCHAIN=local CGO_ENABLED=0
 mkdir -p bin evidence replays .work
 (cd xmc && go build -tags verif -o ../bin/xmc .)
+REPO=$(sed -n 's/^replace github.com\/xjslang\/xjs => //p' xmc/go.mod)
+(cd xmc && go run ./cmd/instrument "$REPO" ../.work/setup-ovl >/dev/null && go build -tags xmcsched -overlay ../.work/setup-ovl/overlay.json -o ../.work/setup-sched ./cmd/sched) || echo "warning: instrumented build failed (C14 schedules will be reported as unavailable)"
+(cd xmc && CGO_ENABLED=1 go build -race -o ../.work/setup-racep ./cmd/racep) || echo "warning: race-enabled build failed (C14 race pass will be skipped)"
+rm -rf .work/setup-ovl .work/setup-sched .work/setup-racep
 echo setup ok
